@@ -182,6 +182,14 @@ func runSpecCheck(c *Ctx, rtl bool) {
 		}
 	}
 	add("SETOVL (fragment)", setOvl, "", profP0, 5, false)
+	var lookLoop []Pat
+	for _, p := range lookLoopFamily() {
+		if inC01Fragment(p.AST) {
+			lookLoop = append(lookLoop, p)
+		}
+	}
+	add("LOOKLOOP (fragment)", lookLoop, "", profP0, 5, false)
+	add("LOOKLOOP (fragment)", lookLoop, "R", profP0, 5, false)
 	add("LOOPALT", loopAltFamily(), "", profP0, 6, false)
 	add("ALTB", altBranchFamily(false), "", profP0, 4, false)
 	jobs = append(jobs, specJob{fam: "GROW (long inputs, fresh Regexp per input)", pats: growFamily(), opts: base, prof: profP0, maxL: 26, long: growInputs()})
